@@ -39,7 +39,9 @@ RULE = ('messages built through the public API from valid components: method tok
 	'non-trivial = one message delivered and equal; distinct by (kind, framing, coding, source, sizes)')
 
 METHOD_CHARS = 'ABCDEFGHIJKLMNOPQRSTUVWXYZabcdefghijklmnopqrstuvwxyz0123456789-_.$'
-SEG_ALPHABETS = [u'abcXYZ019-._~', u'a b+&=?#%;:@,!$\'()*', u'äöüßéñÿ', u'€→日本語', u'\U0001f600\U0001f4a9x', u'/a', u'%41%7e', u'%2541%e9%20o100', u'a%4']
+SEG_ALPHABETS = [u'abcXYZ019-._~', u'a b+&=?#%;:@,!$\'()*', u'äöüßéñÿ', u'€→日本語', u'\U0001f600\U0001f4a9x', u'/a', u'%41%7e', u'%2541%e9%20o100', u'a%4',
+	# text that is not in a Unicode normalisation form / that case folding or compatibility mapping would change: data, to be kept as it is
+	u'e\u0301a\u0308o\u0302', u'\u212b\u2126\ufb01\u00b5K', u'\u1100\u1161\u11a8x', u'\u0130\u0131I\u1e9e\u017f']
 CTL_ALPHABETS = [u'\x10\x1f\x7fa', u'\x01\x0fa']
 HEADER_NAMES = ['X-Foo', 'X-Bar', 'Accept-Language', 'Cache-Control', 'X-Custom-Header', 'From', 'Pragma', 'Warning']
 DEFAULTED_NAMES = ['User-Agent', 'Accept', 'Accept-Ranges', 'Server', 'Allow']
@@ -79,7 +81,7 @@ def gen_case(rng):
 	version = rng.choice(((1, 1), (1, 1), (1, 0)))
 	fields = []
 	for name in rng.sample(HEADER_NAMES, rng.randrange(1, 5)):
-		v = word(rng, [u'abc XYZ 019', u'text/html; q=0.5, */*', u'äöü éè', u'"quoted, value"', u'a=b; c="d e"', u'\xa0x\xff', u'na\xc3\xafve \xc2\xa0\xc3\xa9', u'\xc3\xa4\xe2\x82\xacx'], 1, 12).strip()
+		v = word(rng, [u'abc XYZ 019', u'text/html; q=0.5, */*', u'äöü éè', u'"quoted, value"', u'a=b; c="d e"', u'\xa0x\xff', u'na\xc3\xafve \xc2\xa0\xc3\xa9', u'\xc3\xa4\xe2\x82\xacx'], 1, 12).strip(u' \t')      # optional white space of a field is SP / HTAB; anything else at the ends (U+00A0 ...) is content
 		fields.append((name, v or u'v'))
 	if rng.random() < 0.25:
 		# a field the composer has a default for, set by the caller - also to the empty value
